@@ -13,9 +13,14 @@
                    non-null position (null, and for the non-null position one error)
            lval    resolver returns the list [v, null, v] for a field of type [Int]
            lnn     resolver returns the list [v, null] for a field of type [Int!]: null item stays, one error with the index
+           lobj    resolver returns a LIST OF TWO OBJECTS for a field of type [T]: the node's sub-selection runs once per item, item 0
+                   first.  A plan holds at most one such node; Seal unfolds it: the field instances below it are copied for item 1
+                   (item = 1, of = the instance of item 0 they copy) and appended to the table, so that Kids(lobj) lists the
+                   instances of item 0 and then those of item 1 - the order Executor.complete_list_value starts them in
            argerr  the field's ARGUMENTS fail coercion at execution time (an explicit null reaches `x: Int! = 3` through a nullable
                    variable): the resolver is never invoked, the field is null with one error, and it settles at once whatever its mode
      mode: def = the resolver's result becomes available later (pool task / coroutine), sync = in line.
+   Seal closes the plan (phase "ready") and unfolds a list-of-objects node.
    Phase "run": Begin starts the operation; Complete(n) makes the result of any pending resolver available.
      Start(ns)   starts field instances in document order; synchronous ones complete in line, depth first
                  (Executor.execute_fields + resolve_field + complete_value).
@@ -27,7 +32,8 @@ EXTENDS Naturals, Sequences, FiniteSets, TLC, Json, SequencesExt
 CONSTANTS MaxNodes,  \* maximal number of field instances in a plan
           OpKinds,   \* subset of {"query", "mutation"}
           Modes      \* subset of {"def", "sync"}
-Outs == {"val", "null", "nullnn", "err", "crash", "obj", "sernull", "sernullnn", "lval", "lnn", "argerr"}
+Outs == {"val", "null", "nullnn", "err", "crash", "obj", "sernull", "sernullnn", "lval", "lnn", "argerr", "lobj"}
+Composite == {"obj", "lobj"}
 NodeChoices == {[mode |-> m, out |-> o] : m \in Modes, o \in Outs}
 VARIABLES phase, op, nodes, st, steps, failed, init0, inv
 vars == <<phase, op, nodes, st, steps, failed, init0, inv>>
@@ -44,11 +50,22 @@ Init == /\ phase = "build" /\ op \in OpKinds /\ nodes = <<>> /\ st = <<>> /\ ste
 AddNode == /\ phase = "build" /\ NN < MaxNodes
            /\ \E c \in NodeChoices :
               \E p \in (IF NN = 0 THEN {0} ELSE Anc(nodes, NN)) :
-                 /\ (IF p = 0 THEN TRUE ELSE nodes[p].out = "obj")
-                 /\ nodes' = Append(nodes, [parent |-> p, mode |-> c.mode, out |-> c.out])
+                 /\ (IF p = 0 THEN TRUE ELSE nodes[p].out \in Composite)
+                 /\ (c.out = "lobj" => \A i \in 1..NN : nodes[i].out # "lobj")
+                 /\ nodes' = Append(nodes, [parent |-> p, mode |-> c.mode, out |-> c.out, item |-> 0, of |-> 0])
            /\ UNCHANGED <<phase, op, st, steps, failed, init0, inv>>
 \* every object node needs at least one child (selection sets are non-empty)
-WellFormed == NN >= 1 /\ \A n \in 1..NN : nodes[n].out = "obj" => Kids(n) # <<>>
+WellFormed == NN >= 1 /\ \A n \in 1..NN : nodes[n].out \in Composite => Kids(n) # <<>>
+\* the table with the field instances below the list-of-objects node copied for the second item (pre-order: they are the block L+1..L+d)
+Unfolded(ns) ==
+  LET Ls == {i \in 1..Len(ns) : ns[i].out = "lobj"} IN
+  IF Ls = {} THEN ns
+  ELSE LET L == CHOOSE i \in Ls : TRUE
+           d == Cardinality({i \in 1..Len(ns) : i # L /\ L \in Anc(ns, i)})
+           N0 == Len(ns)
+       IN ns \o [i \in 1..d |-> [ns[L + i] EXCEPT !.parent = IF @ = L THEN L ELSE @ - L + N0, !.item = 1, !.of = L + i]]
+Seal == /\ phase = "build" /\ WellFormed /\ phase' = "ready" /\ nodes' = Unfolded(nodes)
+        /\ UNCHANGED <<op, st, steps, failed, init0, inv>>
 
 RECURSIVE Desc(_)
 Desc(n) == {n} \cup UNION {Desc(k) : k \in {i \in 1..NN : Nd(i).parent = n}}
@@ -61,11 +78,11 @@ Start(ns, s) ==
            si == IF Nd(n).out = "argerr" THEN s ELSE [s EXCEPT !.inv = Append(@, n)]
            s1 == IF Nd(n).mode = "def" /\ Nd(n).out # "argerr" THEN [si EXCEPT !.st[n] = "pending"]
                  ELSE LET s0 == [si EXCEPT !.st[n] = "done", !.failed = (Nd(n).out = "crash")]
-                      IN IF Nd(n).out = "obj" THEN Start(Kids(n), s0) ELSE s0
+                      IN IF Nd(n).out \in Composite THEN Start(Kids(n), s0) ELSE s0
        IN Start(Tail(ns), s1)
 \* top-level field t has settled: nothing pending below it and every idle node below it is unreachable
 Settled(t, stf) == \A d \in Desc(t) : stf[d] # "pending" /\
-                      (stf[d] = "idle" => \E a \in Desc(t) : a # d /\ d \in Desc(a) /\ (stf[a] = "idle" \/ Nd(a).out # "obj"))
+                      (stf[d] = "idle" => \E a \in Desc(t) : a # d /\ d \in Desc(a) /\ (stf[a] = "idle" \/ Nd(a).out \notin Composite))
 Tops == Kids(0)
 RECURSIVE Advance(_)
 Advance(s) ==
@@ -75,7 +92,7 @@ Advance(s) ==
        IN IF idle = <<>> THEN s
           ELSE IF started = <<>> \/ Settled(Last(started), s.st) THEN Advance(Start(<<Head(idle)>>, s)) ELSE s
 Pending(stf) == {n \in 1..NN : stf[n] = "pending"}
-Begin == /\ phase = "build" /\ WellFormed
+Begin == /\ phase = "ready"
          /\ LET s0 == [st |-> [n \in 1..NN |-> "idle"], failed |-> FALSE, inv |-> <<>>]
                 s1 == IF op = "mutation" THEN Advance(s0) ELSE Start(Tops, s0)
             IN st' = s1.st /\ failed' = s1.failed /\ inv' = s1.inv /\ init0' = SetToSortSeq(Pending(s1.st), <)
@@ -83,13 +100,13 @@ Begin == /\ phase = "build" /\ WellFormed
 Complete(n) ==
   /\ phase = "run" /\ ~failed /\ st[n] = "pending"
   /\ LET s0 == [st |-> [st EXCEPT ![n] = "done"], failed |-> Nd(n).out = "crash", inv |-> inv]
-         s1 == IF Nd(n).out = "obj" THEN Start(Kids(n), s0) ELSE s0
+         s1 == IF Nd(n).out \in Composite THEN Start(Kids(n), s0) ELSE s0
          s2 == Advance(s1)
      IN /\ st' = s2.st /\ failed' = s2.failed /\ inv' = s2.inv
         /\ steps' = Append(steps, [n |-> n, pending |-> SetToSortSeq(Pending(s2.st), <), failed |-> s2.failed])
   /\ UNCHANGED <<phase, op, nodes, init0>>
 CompleteAny == \E n \in 1..NN : Complete(n)
-Next == AddNode \/ Begin \/ CompleteAny
+Next == AddNode \/ Seal \/ Begin \/ CompleteAny
 Spec == Init /\ [][Next]_vars
 FairSpec == Spec /\ WF_vars(CompleteAny)
 Quiescent == phase = "run" /\ (failed \/ Pending(st) = {})
@@ -101,8 +118,9 @@ Data(n) == CASE Nd(n).out = "val" -> [k |-> "val"]
              [] Nd(n).out = "lval" -> [k |-> "lval"]
              [] Nd(n).out = "lnn" -> [k |-> "lnn"]
              [] Nd(n).out = "obj" -> [k |-> "obj", kids |-> [i \in 1..Len(Kids(n)) |-> [id |-> Kids(n)[i], v |-> Data(Kids(n)[i])]]]
+             [] Nd(n).out = "lobj" -> [k |-> "lobj", kids |-> [i \in 1..Len(Kids(n)) |-> [id |-> Kids(n)[i], item |-> Nd(Kids(n)[i]).item, v |-> Data(Kids(n)[i])]]]
              [] OTHER -> [k |-> "crash"]
-Reachable(n) == \A a \in Anc(nodes, n) \ {0, n} : Nd(a).out = "obj"
+Reachable(n) == \A a \in Anc(nodes, n) \ {0, n} : Nd(a).out \in Composite
 ErrNodes == {n \in 1..NN : Reachable(n) /\ Nd(n).out \in {"nullnn", "err", "sernullnn", "lnn", "argerr"}}
 Crashes == \E n \in 1..NN : Reachable(n) /\ Nd(n).out = "crash"
 
